@@ -533,7 +533,7 @@ class BaseCInt(BaseInt):
         """
         try:
             return int(value)
-        except (ValueError, TypeError):
+        except (ValueError, TypeError, OverflowError):
             self.error(object, name, value)
 
 
@@ -559,7 +559,7 @@ class BaseCFloat(BaseFloat):
         """
         try:
             return float(value)
-        except (ValueError, TypeError):
+        except (ValueError, TypeError, OverflowError):
             self.error(object, name, value)
 
 
@@ -585,7 +585,7 @@ class BaseCComplex(BaseComplex):
         """
         try:
             return complex(value)
-        except (ValueError, TypeError):
+        except (ValueError, TypeError, OverflowError):
             self.error(object, name, value)
 
 
